@@ -159,9 +159,75 @@ def judge_roundtrip(ctx: core.Ctx, case: dict[str, Any]) -> None:
     ctx.ok(("roundtrip", src, s0, sep), nontrivial=True)
 
 
+def _plain_vals(l: list, k: str):
+    vals = [x[k] for x in l if k in x and x[k] is not None]
+    if any(type(v) not in (int, str) for v in vals):
+        return None
+    return vals
+
+
+def chain_expected(chain: str, l: list, k: str):
+    """Documented compositions of the list filters (the examples of the filter reference): what they select, in which order."""
+    vals = _plain_vals(l, k)
+    if vals is None:
+        return None
+    if chain == "map-compact-size":
+        return str(len(vals))
+    if chain == "map-compact-join":
+        return ",".join(str(v) for v in vals)
+    if chain.startswith("sort") and any(k in x and x[k] is None for x in l):
+        return None  # where an explicit nil value sorts is not settled (only objects *without* the property are)
+    if chain in ("sort-map-compact-join", "sort_natural-map-compact-join"):
+        if len({type(v) for v in vals}) > 1 or (chain.startswith("sort_natural") and any(type(v) is not str for v in vals)):
+            return None
+        keyf = (lambda v: v.lower()) if chain.startswith("sort_natural") else (lambda v: v)
+        sv = sorted(vals, key=keyf)
+        if [keyf(v) for v in sv] != [keyf(v) for v in sorted(vals, key=keyf, reverse=True)][::-1]:
+            return None  # ties between different spellings: their relative order is not settled
+        return ",".join(str(v) for v in sv)
+    if chain == "sort-last-has-no-key":
+        # "objects without the key property will be at the end"
+        if len({type(v) for v in vals}) > 1 or not any(k not in x for x in l) or not vals:
+            return None
+        return "missing-last"
+    raise ValueError(chain)
+
+
+CHAIN_SOURCES = {
+    "map-compact-size": "{% assign r = l | map: k | compact %}{{ r | size }}",
+    "map-compact-join": "{{ l | map: k | compact | join: ',' }}",
+    "sort-map-compact-join": "{{ l | sort: k | map: k | compact | join: ',' }}",
+    "sort_natural-map-compact-join": "{{ l | sort_natural: k | map: k | compact | join: ',' }}",
+    "sort-last-has-no-key": "{% assign r = l | sort: k %}{% assign z = r | last %}{% if z[k] == nil %}missing-last{% else %}has:{{ z[k] }}{% endif %}",
+}
+
+
+def judge_chain(ctx: core.Ctx, case: dict[str, Any]) -> None:
+    l, k, chain = V.dec(case["l"]), case["k"], case["chain"]
+    exp = chain_expected(chain, l, k)
+    if exp is None:
+        ctx.unspecified("chain:" + chain)
+        return
+    o = drv.parse_and_render(env(), CHAIN_SOURCES[chain], {"l": l, "k": k}, use_async=case.get("async", False))
+    ctx.count("judged:chain")
+    ctx.evaluations += 1
+    if not o.ok:
+        if not o.is_liquid_error:
+            ctx.count("non_liquid_error_forwarded_to_C02")
+        ctx.violation(f"chain:{chain}:raises-{o.err_class}", f"{CHAIN_SOURCES[chain]!r} with l={l!r:.160} k={k!r} raised {o.err_class}: {drv.safe_str(o.exc)[:80]}; the documented result is {exp!r}")
+        return
+    if o.value != exp:
+        ctx.violation(f"chain:{chain}", f"{CHAIN_SOURCES[chain]!r} with l={l!r:.160} k={k!r} rendered {o.value!r}, documented result {exp!r}")
+        return
+    ctx.ok((chain, case["l"], k), nontrivial=True)
+
+
 def judge(ctx: core.Ctx, case: dict[str, Any]) -> None:
     if case.get("kind") == "roundtrip":
         judge_roundtrip(ctx, case)
+        return
+    if case.get("kind") == "chain":
+        judge_chain(ctx, case)
         return
     e = env()
     name = case["filter"]
@@ -320,6 +386,12 @@ def cases(ctx: core.Ctx):
         idx += 1
         if idx % ctx.nshards == ctx.shard:
             yield {"kind": "roundtrip", "s": s0, "sep": sep, "source": src, "async": idx % 7 == 0}
+    for l in HASHLISTS + [[{"k": 2}, {}, {"k": 1}], [{"t": "b", "k": 3}, {"u": 1}, {"t": "a", "k": 1}, {"k": 2}], [{"k": None, "t": "x"}, {"k": 5, "t": None}, {"t": "y"}]]:
+        for k in ("k", "t", "nope", "n", "j"):
+            for chain in CHAIN_SOURCES:
+                idx += 1
+                if idx % ctx.nshards == ctx.shard:
+                    yield {"kind": "chain", "chain": chain, "l": V.enc(l), "k": k, "async": idx % 5 == 0}
     for name, shapes in SHAPES.items():
         for shape in shapes:
             pools = [pool_for(k) for k in shape]
